@@ -26,9 +26,10 @@ H6 == 1..6
 Val_no == {FALSE}
 Val_yes == {TRUE}
 Val_both == BOOLEAN
-V_v2 == {"PASS", "FAIL", "TIMEOUT", "SILENCE", "BYPASS"}
+\* RAISE: the validator raises an exception instead of returning a verdict (nothing was accepted)
+V_v2 == {"PASS", "FAIL", "TIMEOUT", "SILENCE", "BYPASS", "RAISE"}
 V_v2two == {"PASS", "FAIL"}
-V_legacy == {"T", "F"}
+V_legacy == {"T", "F", "RAISE"}
 Rep_one == {"uri"}
 Rep_all == {"uri", "strlist", "byteslist", "bytearraylist", "memviewlist", "wire", "wirebuf", "mutbuf"}
 E_all == {"bare", "lp", "lph", "lpo"}
